@@ -126,7 +126,7 @@ def run(repo, rep):
 
     rep.run_borrowed(c02, {"C02-f": "C03-c"}, repo, only_sites=("propose_weight_buffering", "generate_high_level_commands_for_sched_op"))
     # scale stream region and Memcpy outputs kept linear [rules shared with C02-k]
-    rep.run_borrowed(c02, {"C02-k": "C03-c"}, repo, only_sites=("create_weights", "_avoid_nhcwb16_for_memory_only"))
+    rep.run_borrowed(c02, {"C02-k": "C03-c"}, repo, only_sites=("create_weights", "_avoid_nhcwb16_for_memory_only", "remove_SplitSliceRead"))
     st_ = sch.func("Scheduler.propose_schedule_striping")
     bt = [c for c in calls_in(st_, "self.buffer_tensor")]
     en_ = [l for l in ast.walk(st_) if isinstance(l, ast.For) and "buffered_weight_tensors" in norm(l.iter) and call_name(l.iter) == "enumerate"]
